@@ -6,8 +6,11 @@ for f in sorted(glob.glob(os.path.join(os.path.dirname(os.path.dirname(os.path.a
     sid = os.path.basename(os.path.dirname(f))
     c = m.get('confirmed', {})
     ok = all(c.get(k) for k in ('applies', 'suite_ok', 'demo_fails_with_patch', 'demo_passes_without_patch'))
+    first = m.get('checks_first_run', {})
     for tier, r in sorted(m.get('checks', {}).items()):
-        rows.append('| %s | %s | %s | %s | %s | %s |' % (sid, m['property'], 'yes' if ok else 'NO', tier,
+        fr = first.get(tier)
+        rows.append('| %s | %s | %s | %s | %s | %s | %s |' % (sid, m['property'], 'yes' if ok else 'NO', tier,
+                    ('detected' if fr['detected'] else 'missed') if fr else 'as now',
                     'detected' if r['detected'] else 'MISSED (exit %s)' % r['exit'], ', '.join(r['clauses'][:4])))
-print('| seeded id | property | confirmed | tier | check | clauses |\n|---|---|---|---|---|---|')
+print('| seeded id | property | confirmed | tier | first run | check now | clauses |\n|---|---|---|---|---|---|---|')
 print('\n'.join(rows))
